@@ -36,7 +36,7 @@ ASSUMPTIONS = [
   "green may be #00FF00 or #008000; JC = 0: alignment not judged; cumulative members may share one paragraph or be separate",
   "vertical position: only displayAlign in {before, after}, region inside the safe area when VP..VP+rows-1 fits the documented row count, and vertical order of anchors (a larger VP is never placed above a smaller one; two fitting VP >= 1 never coincide; VP 0 and 1 may) for equal-shape subtitles with the same displayAlign; no exact coordinates, no double-height geometry",
   "files with a CS sequence other than 01 02* 03 (per set): only 'the reader does not crash' is judged (abstain:cs-irregular); a regular set whose first member precedes the programme start IS judged (remaining members at their own times)",
-  "an unused-space code inside a non-final extension block: either per-block truncation or truncation after concatenation accepted",
+  "each block's text field ends at its first unused-space code (8Fh); the blocks of a subtitle are then concatenated",
   "extension blocks whose CS/TCI/TCO differ from the first block, invalid time-code labels, TCO < TCI, unknown DFC/CCT: not judged; differing VP/JC inside a chain: layout not judged",
   "observed text is compared raw and, for CCT 00 when that fails, after NFC normalisation (a decomposed rendering of a diacritic pair is accepted)",
   "mech keys carry context tags naming irregular input features a violation may derive from: "
